@@ -3,7 +3,7 @@
   the Cartesian image, the identity `den (u V)·n = num det V (hkl · u adj L)` behind the zone law.
 -/
 import Atomman.C14
-import Proofs.C16
+import Proofs.C14_C16
 import Proofs.C05_Lemmas
 import Mathlib.Tactic.Ring
 import Mathlib.Tactic.Linarith
@@ -57,7 +57,7 @@ theorem init_cross_parallel (hkl : IV) (hne : hkl ≠ ⟨0, 0, 0⟩) :
   obtain ⟨h, k, l⟩ := hkl
   have hne' : ¬(h = 0 ∧ k = 0 ∧ l = 0) := by
     rintro ⟨rfl, rfl, rfl⟩; exact hne rfl
-  obtain ⟨a, b, s, hp, num, den, hn, hd, he⟩ := C16.idx_cross_parallel h k l hne'
+  obtain ⟨a, b, s, hp, num, den, hn, hd, he⟩ := c16_idx_cross_parallel h k l hne'
   have e := initVectors_eq_C16 h k l
   rw [hp] at e
   cases hi : initVectors ⟨h, k, l⟩ with
